@@ -209,9 +209,8 @@ func c06Check(state any, e *vsched.Exec) (string, []explore.Finding) {
 		if len(fs) == 0 {
 			bad("client-stuck", "client did not finish: %q; blocked: %s", st.clientEnd, blockedList(e))
 		}
-	} else if len(e.Blocked) > 0 {
-		bad("stuck-after-close", "tasks still blocked after the client closed the connection: %s", blockedList(e))
 	}
+	// (whether serving winds down after the client closed is C11's business)
 	return "order=" + strings.Join(order, ",") + fmt.Sprintf(" dups=%v", dup), fs
 }
 
@@ -292,63 +291,46 @@ func c06Scenarios() []*explore.Scenario {
 	return out
 }
 
-// runScenarios explores each scenario with iterative preemption bounding
-// inside the run's budget and reports findings.
+// runScenarios explores each scenario (one worker process per scenario,
+// iterative preemption bounding 0..maxP, happens-before cache) inside the
+// run's budget and reports findings.
 func runScenarios(c *core.Ctx, scs []*explore.Scenario, maxP, dBound int) {
-	per := time.Until(c.Deadline) / time.Duration(len(scs)+1)
-	completedAll := maxP
+	byName := map[string]*explore.Scenario{}
 	for _, sc := range scs {
-		scDeadline := time.Now().Add(per)
-		done := -1
-		for pb := 0; pb <= maxP; pb++ {
-			if pb > 0 && time.Now().After(scDeadline) {
-				break
-			}
-			opt := explore.Options{PBound: pb, DBound: dBound, Deadline: scDeadline}
-			if pb == 0 {
-				opt.Deadline = c.Deadline
-			}
-			var st *explore.Stats
-			if pb < 2 && maxP < 2 {
-				st = explore.Local(sc, opt, nil)
-			} else {
-				st = explore.Parallel(c.Prop, sc, opt, c.Workers)
-			}
-			if st.Err != "" {
-				c.EngineError("%s: %s", sc.Name, st.Err)
-				return
-			}
-			c.Count(st.Execs, st.States, st.Steps, st.Execs-st.Pruned)
-			for k, v := range st.Outcomes {
-				c.Outcome(sc.Name+" "+k, v)
-			}
-			if st.Horizon > 0 {
-				c.NotExhaustive(fmt.Sprintf("%s: step horizon reached in %d executions", sc.Name, st.Horizon))
-			}
-			for i := range st.Viol {
-				v := &st.Viol[i]
-				if err := explore.Confirm(sc, v); err != nil {
-					c.EngineError("%v", err)
-					continue
-				}
-				c.Violation(v.Sig+"@"+sigScenario(sc.Name), v.Msg, map[string]any{"scenario": sc.Name, "choices": v.Choices, "preemption_bound": pb, "log": v.Log, "trace": v.Trace})
-			}
-			if pb == maxP || st.Complete {
-				c.Sample(map[string]any{"scenario": sc.Name, "preemption_bound": pb, "executions": st.Execs, "sample_execution": st.Sample})
-			}
-			if !st.Complete {
-				break
-			}
-			done = pb
-			if len(st.Viol) > 0 {
-				break // the smallest bound exposing it is the most useful
-			}
+		byName[sc.Name] = sc
+	}
+	res := explore.RunMany(c.Prop, scs, explore.Options{PBound: maxP, DBound: dBound, Deadline: c.Deadline}, c.Workers)
+	completedAll := maxP
+	for i, st := range res {
+		sc := scs[i]
+		if st.Err != "" {
+			c.EngineError("%s: %s", sc.Name, st.Err)
+			continue
 		}
-		if done < completedAll {
-			completedAll = done
+		c.Count(st.Execs, st.States, st.Steps, st.Execs-st.Pruned)
+		for k, v := range st.Outcomes {
+			c.Outcome(sc.Name+" "+k, v)
+		}
+		if st.Horizon > 0 {
+			c.NotExhaustive(fmt.Sprintf("%s: step horizon reached in %d executions", sc.Name, st.Horizon))
+		}
+		for i := range st.Viol {
+			v := &st.Viol[i]
+			if err := explore.Confirm(sc, v); err != nil {
+				c.EngineError("%v", err)
+				continue
+			}
+			c.Violation(v.Sig+"@"+sigScenario(sc.Name), v.Msg, map[string]any{"scenario": sc.Name, "choices": v.Choices, "preemption_bound": v.PBound, "deviation_bound": v.DBound, "log": v.Log, "trace": v.Trace})
+		}
+		if i < 4 || i == len(res)-1 {
+			c.Sample(map[string]any{"scenario": sc.Name, "preemption_bound_completed": st.CompletedP, "executions": st.Execs, "executions_at_last_bound": st.LastExecs, "cut_short_by_state_cache": st.Pruned, "sample_execution": st.Sample})
+		}
+		if st.CompletedP < completedAll && len(st.Viol) == 0 {
+			completedAll = st.CompletedP
 		}
 	}
 	c.Set("preemption_bound_completed_all_scenarios", completedAll)
+	c.Set("preemption_bound_target", maxP)
 	c.Set("deviation_bound", dBound)
 	c.Set("scenarios", len(scs))
 	if completedAll < maxP {
